@@ -81,9 +81,9 @@ Definition sp_unexpired (target : N) (r : txrow) : bool :=
     transactions.
     This guard EXCLUDES one real phenomenon: a Sapling output of the wallet re-mined, after a
     reorganisation, at another position of the Sapling commitment tree comes back under another
-    nullifier (same txid, different [o_nf]), which [vu_tx] forbids.  The model handles it (the
-    upsert replaces the nullifier) and the correspondence and [prop_case] exercise it; the
-    theorems do not cover it. *)
+    nullifier (same txid, different [o_nf]), which [vu_tx] forbids.  It is the special case of
+    [weak_universe] below, over which the theorems are proved; the statements over
+    [valid_universe] are corollaries (WLedger.strict_weak, strict_own, reach_strict_w). *)
 Record valid_universe (U : list block) : Prop := {
   vu_tx : forall b t b' t', In b U -> In t (b_txs b) -> In b' U -> In t' (b_txs b') -> t_id t = t_id t' -> t = t';
   vu_out : forall b t o b' t' o', In b U -> In t (b_txs b) -> In o (t_outs t) ->
@@ -91,6 +91,35 @@ Record valid_universe (U : list block) : Prop := {
   vu_idx : forall b t o o', In b U -> In t (b_txs b) -> In o (t_outs t) -> In o' (t_outs t) ->
              o_pool o = o_pool o' -> o_idx o = o_idx o' -> o = o'
 }.
+
+(** ** The universe with position-dependent nullifiers
+
+    An output is named by (pool, txid, index).  The same transaction mined in blocks of
+    different branches has the same spends and the same outputs EXCEPT possibly their nullifiers
+    (a Sapling nullifier depends on the position of the note commitment in the tree, i.e. on the
+    block the transaction is mined in): the outputs with the same name in different branches are
+    the "versions" of one output.  A nullifier names one output. *)
+Definition oid := (N * N * N)%type.
+Definition out_id (t : tx) (o : out) : oid := (o_pool o, t_id t, o_idx o).
+Definition out_nonf (o : out) : option N * N * N * N := (o_owner o, o_pool o, o_value o, o_idx o).
+
+Record weak_universe (U : list block) : Prop := {
+  wu_tx : forall b t b' t', In b U -> In t (b_txs b) -> In b' U -> In t' (b_txs b') -> t_id t = t_id t' ->
+            t_spends t = t_spends t' /\ map out_nonf (t_outs t) = map out_nonf (t_outs t');
+  wu_out : forall b t o b' t' o', In b U -> In t (b_txs b) -> In o (t_outs t) ->
+             In b' U -> In t' (b_txs b') -> In o' (t_outs t') -> o_key o = o_key o' -> out_id t o = out_id t' o';
+  wu_idx : forall b t o o', In b U -> In t (b_txs b) -> In o (t_outs t) -> In o' (t_outs t) ->
+             o_pool o = o_pool o' -> o_idx o = o_idx o' -> o = o'
+}.
+
+(** The current best chain reveals, of an output it contains, only the nullifier of its own
+    version (a transaction revealing the nullifier the note had in an abandoned branch cannot be
+    valid on this chain: its proof is against a treestate this chain does not have). *)
+Definition own_versions (c U : list block) : Prop :=
+  forall b1 t1 bV tV oV b0 t0 o,
+    In b1 c -> In t1 (b_txs b1) -> In bV U -> In tV (b_txs bV) -> In oV (t_outs tV) -> In (o_key oV) (t_spends t1) ->
+    In b0 c -> In t0 (b_txs b0) -> In o (t_outs t0) -> out_id tV oV = out_id t0 o ->
+    o_key oV = o_key o.
 
 (** two chains have the same blocks up to height [h] *)
 Definition agree (c c' : list block) (h : N) : Prop := forall b, b_height b <= h -> (In b c <-> In b c').
@@ -109,6 +138,17 @@ Inductive reach (U : list block) (birthday : N) : list block -> wstate -> Prop :
     reach U birthday c s -> (forall m, has_block (w_blocks s) m = true -> m <= h) ->
     agree c c' h -> valid_chain birthday c' -> incl c' U ->
     reach U birthday c' s.
+
+(** the same, over a universe with position-dependent nullifiers *)
+Inductive reach_w (U : list block) (birthday : N) : list block -> wstate -> Prop :=
+| reachw_init c : valid_chain birthday c -> incl c U -> own_versions c U -> reach_w U birthday c init
+| reachw_op c s o s' :
+    reach_w U birthday c s -> (forall bs, o = OScan bs -> incl bs c) -> step birthday s o = Ok s' ->
+    reach_w U birthday c s'
+| reachw_switch c s c' h :
+    reach_w U birthday c s -> (forall m, has_block (w_blocks s) m = true -> m <= h) ->
+    agree c c' h -> valid_chain birthday c' -> incl c' U -> own_versions c' U ->
+    reach_w U birthday c' s.
 
 (** * Vocabulary of the theorems about wallet histories (Properties.v) *)
 
